@@ -10,6 +10,9 @@ never inside a proof):
                                     theorem `C11_terminates_checked` (`entryFuel G (wfRank G) |input|`):
                                     `v=<ok|fail|oof> end=<byte offset> fuel=<n>`; for a module with
                                     `wf=1` the theorem says `v=oof` never appears.
+  wfraw <gid> […]                   the same two commands on the module generated with `#[pest_optimizer = false]`
+                                    (`genWith` on the un-optimized AST: counted repetitions stay `.rep n (some m)` nodes);
+                                    the hook is in `Driver/Main.lean`.
 -/
 import PestTyped.Lemmas.Termination
 import Driver.Sexp
